@@ -82,8 +82,8 @@ def run(ctx):
     fb = [c for c in prog.calls_matching_all(suffix('BlockIndex::decode_length_delimited', 'prost::Message::decode_length_delimited'))
           if 'BlockIndex' in ' '.join(c.t.get('gargs', []) + [c.name or ''])]
     for c in fb:
-        ok = c.body.root == FROM_BYTES
-        ctx.ob(R2, f'who:{c.body.root}→BlockIndex::decode', ok, f'BlockIndex decoded in {c.body.name}', [site(c.body, c.bb)])
+        ok = prog.owned_by(c.body.root, {FROM_BYTES})       # from_bytes, or a helper only from_bytes calls
+        ctx.ob(R2, f'who:{prog.owner_root(c.body.root)}→BlockIndex::decode', ok, f'BlockIndex decoded in {c.body.name}', [site(c.body, c.bb)])
 
     R4 = 'C18-R4'
     ctx.rule(R4, 'verify_checksum: every successful return is dominated by the comparison of the computed value with the '
